@@ -193,8 +193,15 @@ __strpd_card(struct strpd_s *d, const char *sp, struct dt_spec_s s, char **ep)
 		break;
 	case DT_SPFL_N_DSTD:
 		d->y = strtoi_lim(sp, &sp, DT_MIN_YEAR, DT_MAX_YEAR);
+		if (UNLIKELY(d->y < 0 || !*sp)) {
+			/* don't step over the end of the string */
+			break;
+		}
 		sp++;
 		d->m = strtoi_lim(sp, &sp, 0, GREG_MONTHS_P_YEAR);
+		if (UNLIKELY(d->m < 0 || !*sp)) {
+			break;
+		}
 		sp++;
 		d->d = strtoi_lim(sp, &sp, 0, 31);
 		res = 0 - (d->y < 0 || d->m < 0 || d->d < 0);
